@@ -117,6 +117,54 @@ Theorem C12_wide_last : forall (pre msg : str) (a : align) (tw : N),
 Proof. exact wide_last. Qed.
 Print Assumptions C12_wide_last.
 
+(** --- placeholders with a `.STYLE` part ------------------------------------------------------
+    [styled_field_line pre post s (Some W) a tr (Some (spre, spost))] is the line
+    pre{key:<a><W>[!].STYLE}post; [spre] / [spost] are the texts console writes before / after
+    the value for that style (escape sequences; both empty when colours are off).  A styled sized
+    field is the field of [padded] - the one C12_fits, C12_no_trunc, C12_trunc_* speak about -
+    with the style's texts around it: the style adds text, never changes the field. *)
+Theorem C12_styled_is_field : forall (pre post s : str) (w : N) (a : align) (tr : bool)
+                                     (spre spost : str),
+  styled_field_line pre post s (Some w) a tr (Some (spre, spost)) =
+  match padded s w a tr with
+  | Ok f => Ok (pre ++ (spre ++ f ++ spost) ++ post)
+  | Panic k => Panic k
+  end.
+Proof. exact styled_is_field. Qed.
+Print Assumptions C12_styled_is_field.
+
+(** the clause "W columns when the content fits, padded by the alignment" for a styled field whose
+    style texts occupy no column (escape sequences): every width, alignment, content that fits -
+    the EMPTY content included -, truncation on or off *)
+Theorem C12_styled_fits : forall (s : str) (w : N) (a : align) (tr : bool) (spre spost pre post : str),
+  cols s <= w -> cols spre = 0 -> cols spost = 0 ->
+  exists l r,
+    styled_field_line pre post s (Some w) a tr (Some (spre, spost))
+      = Ok (pre ++ (spre ++ (spaces l ++ s ++ spaces r) ++ spost) ++ post)
+    /\ cols (spre ++ (spaces l ++ s ++ spaces r) ++ spost) = w
+    /\ l + r = w - cols s
+    /\ match a with
+       | ALeft => l = 0
+       | ARight => r = 0
+       | ACenter => l = (w - cols s) / 2 /\ (r = l \/ r = l + 1)
+       end.
+Proof. exact styled_fits. Qed.
+Print Assumptions C12_styled_fits.
+
+(** an empty styled field is W blanks inside the style, whatever the alignment (what seeded
+    defect C12-6 drops) *)
+Theorem C12_styled_empty : forall (w : N) (a : align) (tr : bool) (spre spost pre post : str),
+  styled_field_line pre post [] (Some w) a tr (Some (spre, spost))
+  = Ok (pre ++ (spre ++ spaces w ++ spost) ++ post).
+Proof. exact styled_empty. Qed.
+Print Assumptions C12_styled_empty.
+
+(** without a `.STYLE` part it is the unstyled line *)
+Theorem C12_styled_none : forall (pre post s : str) (w : option N) (a : align) (tr : bool),
+  styled_field_line pre post s w a tr None = field_line pre post s w a tr.
+Proof. exact styled_none. Qed.
+Print Assumptions C12_styled_none.
+
 (** Non-vacuity. *)
 Definition a_ (c : N) : ch := mkch c 1.
 Example C12_ex_fits_center :
@@ -146,3 +194,13 @@ Proof. reflexivity. Qed.
 (* the hypothesis of C12_no_panic is needed: a (fictitious) 1-byte character 3 columns wide *)
 Example C12_ex_underflow : padded [mkch 97 3] 0 ALeft true = Panic 1.
 Proof. reflexivity. Qed.
+(* "|{prefix:>3.red} x" with an empty prefix, colours on: "|" ESC[31m, three blanks, ESC[0m, " x";
+   the escape characters are zero columns wide (hypotheses of C12_styled_fits) *)
+Example C12_ex_styled_empty :
+  let e (c : N) : ch := mkch c 0 in
+  let spre := [e 27; e 91; e 51; e 49; e 109] in
+  let spost := [e 27; e 91; e 48; e 109] in
+  styled_field_line [a_ 124] [a_ 32; a_ 120] [] (Some 3) ARight false (Some (spre, spost))
+  = Ok ([a_ 124] ++ spre ++ [a_ 32; a_ 32; a_ 32] ++ spost ++ [a_ 32; a_ 120])
+  /\ cols spre = 0 /\ cols spost = 0 /\ cols (@nil ch) <= 3.
+Proof. repeat split; try reflexivity. cbn. lia. Qed.
